@@ -92,8 +92,59 @@ def unknown_coll(M: Model, e: ast.expr):
     return None
 
 
-def contains_unknown_coll(M: Model, e: ast.AST) -> bool:
-    return any(isinstance(n, ast.expr) and unknown_coll(M, n) is not None for n in ast.walk(e))
+def unknown_exists(M: Model, e: ast.expr):
+    """resolved boolean `e` that is true iff some aliased name is not a node: any(k not in nodes for k in aliases), not all(k in nodes ...),
+    not set(aliases) <= set(nodes), not set(aliases).issubset(nodes).   -> (('ok'|'other', text), polarity) | None"""
+    from core.guards import to_formula
+
+    if isinstance(e, ast.UnaryOp) and isinstance(e.op, ast.Not):
+        r = unknown_exists(M, e.operand)
+        return None if r is None else (r[0], not r[1])
+    if isinstance(e, ast.Call) and isinstance(e.func, ast.Name) and e.func.id in ("any", "all") and len(e.args) == 1 and isinstance(e.args[0], (ast.GeneratorExp, ast.ListComp)) and len(e.args[0].generators) == 1:
+        g = e.args[0].generators[0]
+        var = key_loop_var(M, g)
+        if var is None or g.ifs:
+            return None
+        f = to_formula(e.args[0].elt, M.helper_subst())
+        for a, kind in membership_atoms(M, f, var).items():
+            want = f_not(atom(a)) if e.func.id == "any" else atom(a)
+            if equivalent(f, want):
+                u = ("ok", None) if kind == "all" else ("other", kind.split(":", 1)[-1])
+                return u, e.func.id == "any"
+        return None
+    l = r = None
+    if isinstance(e, ast.Compare) and len(e.ops) == 1 and isinstance(e.ops[0], ast.LtE):
+        l, r = e.left, e.comparators[0]
+    elif isinstance(e, ast.Call) and isinstance(e.func, ast.Attribute) and e.func.attr == "issubset" and len(e.args) == 1:
+        l, r = e.func.value, e.args[0]
+    if l is not None and M.keys_of_A(strip_wrappers(l, SET_WRAPPERS)) == "keys":
+        k = M.nodes_coll(r)
+        return (("ok", None) if k == "all" else ("other", norm(r, 60))), False
+    return None
+
+
+def contains_unknown_coll(M: Model, e: ast.AST, depth: int = 0) -> bool:
+    """`e` mentions the collection of unknown aliased names (directly or through a local bound to an element of it)"""
+    for n in ast.walk(e):
+        if isinstance(n, ast.expr) and unknown_coll(M, n) is not None:
+            return True
+        if isinstance(n, ast.Name) and isinstance(n.ctx, ast.Load) and depth < 4:
+            v = M.single_value(n.id)
+            if v is not None and contains_unknown_coll(M, M.resolve(v), depth + 1):
+                return True
+            b = M.loop_binding(n.id)
+            if b is not None and b.value is not None and unknown_coll(M, M.resolve(b.value)) is not None:
+                return True
+    return False
+
+
+def naming_of(M: Model, exc: ast.expr, named: bool) -> str:
+    """'yes' | 'no' (the error text has no variable part that could be the module) | 'maybe'"""
+    if named:
+        return "yes"
+    variable = [x for x in ast.walk(exc) if isinstance(x, ast.Name) and isinstance(x.ctx, ast.Load) and not (isinstance(parent(x), ast.Call) and parent(x).func is x)]
+    variable = [x for x in variable if x.id not in ("KeyError", "ValueError", "Exception", "LookupError", "TypeError", "RuntimeError")]
+    return "maybe" if variable else "no"
 
 
 # =========================================================================== R4
@@ -115,10 +166,13 @@ def existence_check(C) -> None:
     good = [f for f in findings if f[0] == "ok"]
     if good:
         _st, decision, r, detail, named = good[0]
-        if named:
+        nm = naming_of(M, M.resolve(r.exc), named)
+        if nm == "yes":
             C.ok(rule, naming, "an alias for a module that is not in the graph raises an error naming it", r, kind="dominance")
-        else:
+        elif nm == "no":
             C.bad(rule, naming, f"`{norm(r.exc, 80)}` does not name the unknown module", r, kind="dominance")
+        else:
+            C.unsure(rule, naming, f"`{norm(r.exc, 80)}`: whether the error text names the unknown module was not established", r)
         call = M.backend_calls[0] if len(M.backend_calls) == 1 else None
         cfg = cfg_of(M.V)
         tgt = M.stmt_of(C.label_store) if C.label_store is not None else None
@@ -198,6 +252,10 @@ def _analyse_raise(C, r: ast.Raise):
         u = unknown_coll(M, inner) if inner is not None else None
         if u is not None:
             u_atoms[a] = (u, True)
+            continue
+        ue = unknown_exists(M, inner) if inner is not None else None
+        if ue is not None:
+            u_atoms[a] = ue
             continue
         # `x is None` where x = next(<unknown names>, None)
         if isinstance(e, ast.Compare) and len(e.ops) == 1 and isinstance(e.ops[0], ast.Is) and isinstance(e.left, ast.Name) and isinstance(e.comparators[0], ast.Constant) and e.comparators[0].value is None:
